@@ -4,6 +4,7 @@
 -/
 import BitstringModel.Proofs.C11_Tables
 import BitstringModel.Proofs.C11_Dec
+import BitstringModel.Proofs.C11_Mxint
 
 namespace BM.C11
 open BM
@@ -223,29 +224,6 @@ theorem e8m0Enc_error_iff (f : Nat) :
       simp only [reduceCtorEq, false_iff]
       intro h
       exact h i hmem hp.symm
-
-/-! ### round-half-even integer division -/
-
-theorem rneDiv_nearest (num : Int) (den : Nat) (hd : 0 < den) : IsNearestEvenInt num den (rneDiv num den) := by
-  unfold IsNearestEvenInt rneDiv
-  have hdi : (0 : Int) < den := by omega
-  have h1 := Int.mul_ediv_add_emod num den      -- den * (num / den) + num % den = num
-  have h2 := Int.emod_nonneg num (by omega : (den : Int) ≠ 0)
-  have h3 := Int.emod_lt_of_pos num hdi
-  generalize num / (den : Int) = q at *
-  generalize num % (den : Int) = r at *
-  have hm : (den : Int) * q = q * den := Int.mul_comm _ _
-  have hs : (q + 1) * (den : Int) = q * den + den := by rw [Int.add_mul, Int.one_mul]
-  simp only []
-  split
-  · constructor <;> omega
-  · split
-    · constructor <;> omega
-    · rcases Int.emod_two_eq q with hq | hq
-      · rw [hq]; simp only [Int.add_zero]
-        constructor <;> omega
-      · rw [hq]
-        constructor <;> omega
 
 /-! ### bfloat: truncated float32 -/
 
